@@ -730,6 +730,11 @@ class PyvalColorizer:
 
     def _colorize_ast_re(self, node:ast.Call, state: _ColorizerState) -> None:
         
+        if any(kw.arg is None for kw in node.keywords) or any(isinstance(arg, ast.Starred) for arg in node.args):
+            # Unpacked arguments ('*args', '**kwargs') cannot be told apart: show the call as it is written.
+            self._colorize_ast_call_generic(node, state)
+            return
+
         try:
             # Can raise TypeError
             args = bind_args(self.RE_COMPILE_SIGNATURE, node)
